@@ -453,7 +453,14 @@ def _run_loop_body(it, c, vals):
             it.s_FunctionDef(st, env)
     outcome, returned = "normal", None
     try:
-        it.exec_block(loop.body, env)
+        try:
+            it.exec_block(loop.body, env)
+        except E.PyRaise as pr:
+            if issubclass(pr.exc_cls, NameError):
+                # the body reads a variable the unit's state does not provide (renamed / new local): the unit no
+                # longer matches the code - undecided, never a violation
+                raise E.Undecided(f"the loop body reads the name {pr.exc_args!r}, which the unit's state does not provide")
+            raise
     except E._Continue:
         outcome = "continue"
     except E._Break:
@@ -683,6 +690,12 @@ class Prover:
                 fn = c.body if is_lemma else c.func
                 params = list(inspect.signature(fn).parameters)
                 kw = {p: vals[p] for p in params if p in vals}
+                if not isinstance(fn, type) and not is_lemma:
+                    sg = inspect.signature(fn)
+                    missing = [p for p, q in sg.parameters.items() if q.default is inspect.Parameter.empty
+                               and q.kind in (q.POSITIONAL_ONLY, q.POSITIONAL_OR_KEYWORD, q.KEYWORD_ONLY) and p not in vals]
+                    if missing:
+                        raise E.Undecided(f"the function now requires the parameter(s) {missing}, which the contract does not name (signature changed)")
                 res = it.call(fn, [], kw) if isinstance(fn, type) else it.run_function(fn, [], kw)
                 return ("return", res, vals)
             except E.PyRaise as pr:
@@ -889,16 +902,16 @@ class Prover:
             call_args = args
         try:
             res = self.call_native(c, call_args)
+        except NameError as ex:
+            if isinstance(c, LoopUnit):
+                return dict(status="skip", detail=f"the loop body reads a name the unit's state does not provide: {ex}")
+            raise
+        except TypeError as ex:
+            if not isinstance(c, (Lemma, LoopUnit)) and ("unexpected keyword argument" in str(ex) or "required positional argument" in str(ex)):
+                return dict(status="skip", detail=f"the function's signature no longer matches the contract: {ex}")
+            return self._native_exc(c, args, ex)
         except Exception as ex:
-            for exc_cls, cond in c.raises.items():
-                if isinstance(ex, exc_cls):
-                    try:
-                        if _native_spec(cond, args):
-                            return dict(status="ok", detail="allowed exception")
-                    except Exception:
-                        pass
-                    return dict(status="fail", clause=f"raises_{exc_cls.__name__}", detail=f"{type(ex).__name__}: {ex} raised where the contract does not allow it")
-            return dict(status="fail", clause="no_exception", detail=f"{type(ex).__name__}: {ex}")
+            return self._native_exc(c, args, ex)
         if isinstance(c, LoopUnit):
             # loop-body units: the named state is the PRE-iteration state (as on the symbolic side), result.<v> the post
             vals = dict(args, result=res, old=NS(**args))
@@ -912,6 +925,17 @@ class Prover:
             if not ok:
                 return dict(status="fail", clause=en, detail=f"postcondition {en} is False; result={res!r}"[:600])
         return dict(status="ok", detail="")
+
+    def _native_exc(self, c, args, ex):
+        for exc_cls, cond in c.raises.items():
+            if isinstance(ex, exc_cls):
+                try:
+                    if _native_spec(cond, args):
+                        return dict(status="ok", detail="allowed exception")
+                except Exception:
+                    pass
+                return dict(status="fail", clause=f"raises_{exc_cls.__name__}", detail=f"{type(ex).__name__}: {ex} raised where the contract does not allow it")
+        return dict(status="fail", clause="no_exception", detail=f"{type(ex).__name__}: {ex}")
 
     def _native_side(self, c, ur):
         if c.witnesses is None:
